@@ -99,7 +99,7 @@ SPECS["Question::deserialise"] = {"props": ["C03", "C04"], "contract": """    re
         r is Err ==> err_id(r->Err_0) == Some(id), // [C03:error_carries_id]
         r is Ok <==> question_at(old(buffer).octets@, old(buffer).position as int) is Some, // [C03:accepts_exactly_the_well_formed_questions]
         r is Ok ==> question_is(r->Ok_0, old(buffer).octets@, old(buffer).position as int) && final(buffer).position == question_at(old(buffer).octets@, old(buffer).position as int)->Some_0, // [C03:question_read_as_an_independent_decoder_does]"""}
-SPECS["ResourceRecord::deserialise"] = {"props": ["C03", "C04"], "rewrites": [("R6", r6_inline_closure)], "attrs": "#[verifier::rlimit(400)] // 20 match arms with about 40 error exits",
+SPECS["ResourceRecord::deserialise"] = {"props": ["C03", "C04"], "rewrites": [("R6", r6_inline_closure)], "attrs": "#[verifier::rlimit(1200)] // 20 match arms with about 40 error exits",
     "anchors": [{"after": "let rdata_start = buffer.position;", "proof": """let ghost b__ = buffer.octets@; let ghost p0__ = old(buffer).position as int; let ghost rdl__ = rdlength as int;
 proof {
     assert(rr_prefix_at(b__, p0__) == Some(rdata_start as int));
@@ -115,6 +115,7 @@ proof {
         r is Err ==> err_id(r->Err_0) == Some(id), // [C03:error_carries_id]
         r is Ok ==> rr_prefix_at(old(buffer).octets@, old(buffer).position as int) is Some, // [C03:record_header_present]
         r is Ok ==> rr_header_is(r->Ok_0, old(buffer).octets@, old(buffer).position as int), // [C03:record_header_read_as_an_independent_decoder_does]
+        r is Ok ==> rr_rdata_is(r->Ok_0, old(buffer).octets@, old(buffer).position as int), // [C03,C04:rdata_read_as_an_independent_decoder_does]
         r is Ok ==> final(buffer).position == rr_end(old(buffer).octets@, old(buffer).position as int), // [C03:rdlength_equals_the_rdata_consumed]
         r is Ok <==> rr_at(old(buffer).octets@, old(buffer).position as int) is Some, // [C03:accepts_exactly_the_well_formed_records]
         r is Ok ==> final(buffer).position == rr_at(old(buffer).octets@, old(buffer).position as int)->Some_0, // [C03:record_ends_where_the_independent_reading_ends]""",
@@ -281,6 +282,40 @@ pub open spec fn rdata_end(t: RecordType, b: Seq<u8>, p: int, rdlength: int) -> 
         RecordType::Unknown(_) => fixed_end(b, p, rdlength),
     }
 }
+// what the RDATA of a well-formed record of type t at offset p says (same sections of the RFCs): names read as name_at reads them,
+// integers big-endian, addresses from their 4 / 16 octets, uninterpreted RDATA as its RDLENGTH octets
+pub open spec fn nm_is(n: DomainName, b: Seq<u8>, p: int) -> bool { vals(n.labels@) == name_at(b, p)->Some_0.0 }
+pub open spec fn ne(b: Seq<u8>, p: int) -> int { name_at(b, p)->Some_0.1 }
+pub open spec fn u16_at(b: Seq<u8>, p: int) -> u16 { be16(b[p], b[p + 1]) }
+pub open spec fn u32_at(b: Seq<u8>, p: int) -> u32 { be32(b[p], b[p + 1], b[p + 2], b[p + 3]) }
+pub open spec fn rdata_is(d: RecordTypeWithData, t: RecordType, b: Seq<u8>, p: int, rdl: int) -> bool {
+    match t {
+        RecordType::A => d is A && d->A_address == ipv4_of(u32_at(b, p)),
+        RecordType::NS => d is NS && nm_is(d->NS_nsdname, b, p),
+        RecordType::MD => d is MD && nm_is(d->MD_madname, b, p),
+        RecordType::MF => d is MF && nm_is(d->MF_madname, b, p),
+        RecordType::CNAME => d is CNAME && nm_is(d->CNAME_cname, b, p),
+        RecordType::SOA => d is SOA && nm_is(d->SOA_mname, b, p) && nm_is(d->SOA_rname, b, ne(b, p)) && ({ let q = ne(b, ne(b, p));
+            d->SOA_serial == u32_at(b, q) && d->SOA_refresh == u32_at(b, q + 4) && d->SOA_retry == u32_at(b, q + 8) && d->SOA_expire == u32_at(b, q + 12) && d->SOA_minimum == u32_at(b, q + 16) }),
+        RecordType::MB => d is MB && nm_is(d->MB_madname, b, p),
+        RecordType::MG => d is MG && nm_is(d->MG_mdmname, b, p),
+        RecordType::MR => d is MR && nm_is(d->MR_newname, b, p),
+        RecordType::NULL => d is NULL && bv(&d->NULL_octets) == b.subrange(p, p + rdl),
+        RecordType::WKS => d is WKS && bv(&d->WKS_octets) == b.subrange(p, p + rdl),
+        RecordType::PTR => d is PTR && nm_is(d->PTR_ptrdname, b, p),
+        RecordType::HINFO => d is HINFO && bv(&d->HINFO_octets) == b.subrange(p, p + rdl),
+        RecordType::MINFO => d is MINFO && nm_is(d->MINFO_rmailbx, b, p) && nm_is(d->MINFO_emailbx, b, ne(b, p)),
+        RecordType::MX => d is MX && d->MX_preference == u16_at(b, p) && nm_is(d->MX_exchange, b, p + 2),
+        RecordType::TXT => d is TXT && bv(&d->TXT_octets) == b.subrange(p, p + rdl),
+        RecordType::AAAA => d is AAAA && d->AAAA_address == ipv6_of(u16_at(b, p), u16_at(b, p + 2), u16_at(b, p + 4), u16_at(b, p + 6), u16_at(b, p + 8), u16_at(b, p + 10), u16_at(b, p + 12), u16_at(b, p + 14)),
+        RecordType::SRV => d is SRV && d->SRV_priority == u16_at(b, p) && d->SRV_weight == u16_at(b, p + 2) && d->SRV_port == u16_at(b, p + 4) && nm_is(d->SRV_target, b, p + 6),
+        RecordType::Unknown(tag) => d is Unknown && d->Unknown_tag == tag && bv(&d->Unknown_octets) == b.subrange(p, p + rdl),
+    }
+}
+pub open spec fn rr_rdata_is(rr: ResourceRecord, b: Seq<u8>, pos: int) -> bool {
+    let e = name_at(b, pos)->Some_0.1;
+    rdata_is(rr.rtype_with_data, spec_rtype_from(be16(b[e], b[e + 1])), b, e + 10, be16(b[e + 8], b[e + 9]) as int)
+}
 // a whole resource record: the offset just after it, when it is well-formed (RDLENGTH equal to the RDATA its type prescribes)
 #[verifier::opaque]
 pub open spec fn rr_at(b: Seq<u8>, pos: int) -> Option<int> {
@@ -349,6 +384,9 @@ def build(G):
 
 
 CANARIES = [
+    {"name": "soa_refresh_and_retry_swapped", "file": DESER, "old": "                refresh: buffer.next_u32().ok_or(Error::ResourceRecordTooShort(id))?,\n                retry: buffer.next_u32().ok_or(Error::ResourceRecordTooShort(id))?,", "new": "                retry: buffer.next_u32().ok_or(Error::ResourceRecordTooShort(id))?,\n                refresh: buffer.next_u32().ok_or(Error::ResourceRecordTooShort(id))?,"},
+    {"name": "srv_weight_and_port_swapped", "file": DESER, "old": "                weight: buffer.next_u16().ok_or(Error::ResourceRecordTooShort(id))?,\n                port: buffer.next_u16().ok_or(Error::ResourceRecordTooShort(id))?,", "new": "                port: buffer.next_u16().ok_or(Error::ResourceRecordTooShort(id))?,\n                weight: buffer.next_u16().ok_or(Error::ResourceRecordTooShort(id))?,"},
+    {"name": "minfo_mailboxes_swapped", "file": DESER, "old": "                rmailbx: DomainName::deserialise(id, buffer)?,\n                emailbx: DomainName::deserialise(id, buffer)?,", "new": "                emailbx: DomainName::deserialise(id, buffer)?,\n                rmailbx: DomainName::deserialise(id, buffer)?,"},
     {"name": "rdlength_slack_accepted", "file": DESER, "old": "if rdata_stop == rdata_start + (rdlength as usize) {", "new": "if rdata_stop <= rdata_start + (rdlength as usize) {"},
     {"name": "ttl_read_as_u16", "file": DESER, "old": "let ttl = buffer.next_u32().ok_or(Error::ResourceRecordTooShort(id))?;", "new": "let ttl = u32::from(buffer.next_u16().ok_or(Error::ResourceRecordTooShort(id))?);\n        let _ = buffer.next_u16().ok_or(Error::ResourceRecordTooShort(id))?;"},
     {"name": "question_class_before_type", "file": DESER, "old": "        let qtype = QueryType::deserialise(id, buffer)?;\n        let qclass = QueryClass::deserialise(id, buffer)?;", "new": "        let qclass = QueryClass::deserialise(id, buffer)?;\n        let qtype = QueryType::deserialise(id, buffer)?;"},
